@@ -144,7 +144,13 @@ class SymTensor(torch.Tensor):
 def s_cast(v, dtype):
     if dtype == torch.bool:
         return s_bool(v)
+    if S.is_fp(v):
+        if isfloat_dtype(dtype):
+            return v
+        return S.fp_trunc_to_int(v)
     if isfloat_dtype(dtype):
+        if ENGINE is not None and ENGINE.fp_mode and is_z3(v) and z3.is_int(v):
+            return float(ENGINE.decide_int(v))  # fork on the small integral operand of a float32 computation
         if isinstance(v, XR):
             return v
         if is_sym(v):
@@ -203,10 +209,12 @@ class Engine(TorchDispatchMode):
         self.gcount = 0
         self.lazy_select = False
         self.fork_scalar_mul = True
+        self.fp_mode = False
         self.fork_limit = 4096
         self.tie_free = []  # conditions "compared keys distinct" collected by sort/topk/max
         self.notes = []
         S.DIV_RANGE_OBLIGATIONS = self.model_obligations
+        S.FP_OBLIGATIONS = self.model_obligations
 
     # ---------------------------------------------------------------- inputs
     def _reg(self, name, var):
@@ -230,6 +238,16 @@ class Engine(TorchDispatchMode):
             self.pc.append(v >= lo)
         if hi is not None:
             self.pc.append(v <= hi)
+        return v
+
+    def fp32(self, name, lo=None, hi=None, hi_strict=True):
+        """float32 input, lo <= v (<|<=) hi, not NaN"""
+        v = self._reg(name, z3.FP(name, S.FP32))
+        self.pc.append(z3.Not(z3.fpIsNaN(v)))
+        if lo is not None:
+            self.pc.append(z3.fpGEQ(v, z3.FPVal(float(lo), S.FP32)))
+        if hi is not None:
+            self.pc.append((z3.fpLT if hi_strict else z3.fpLEQ)(v, z3.FPVal(float(hi), S.FP32)))
         return v
 
     def grid(self, name, lo, hi, denom):
@@ -565,6 +583,10 @@ class Engine(TorchDispatchMode):
             dtype = self.result_dtype(a, b)
         a, b = self.lift(a), self.lift(b)
         shape, (va, vb) = self.bcast(a, b)
+        if self.fp_mode and isfloat_dtype(dtype):
+            # float32 semantics: symbolic integers entering a float computation are concretised by forking
+            va = [float(self.decide_int(x)) if (is_z3(x) and z3.is_int(x)) else x for x in va]
+            vb = [float(self.decide_int(x)) if (is_z3(x) and z3.is_int(x)) else x for x in vb]
         out = [s_cast(f(x, y), dtype) for x, y in zip(va, vb)]
         return SymTensor.from_vals(out, shape, dtype)
 
